@@ -289,3 +289,70 @@ def _mk_shape(shape):
 
 for _s in SHAPES:
     _mk_shape(_s)
+
+
+# ================================================================== the decode -> swap -> interleave pipeline, one block (C12, C05)
+# lemma over the REAL functions (make_transcoder, PipelineTranscoder.__next__, decode_frame, swap_*, pad_channels, encode_frame):
+# for a list of streams of one sample width w (each mono or interleaved, either byte order) the block produced is
+# maxframes * C * w bytes, and for every frame below the shortest stream, channel c of the output holds the bytes of the source
+# channel it comes from - reversed exactly when the source order is BIG (the destination is LITTLE as WAV demands).
+# numpy is an ASSUMED model at item level (frombuffer / reshape / T / pad / astype / vstack / reshape(order='F') / tobytes /
+# byteswap over items = w memory bytes); everything between those calls is the repository's code.
+PIPE_SHAPES = [((1, 1), 2), ((2,), 2), ((1, 2), 2), ((2, 1), 2), ((1,), 2), ((1, 1), 1), ((1, 1), 4), ((3,), 2), ((1, 1, 1), 2)]
+
+
+def _mk_pipe(shape, w):
+    tag = "x".join(str(c) for c in shape) + f",w={w}"
+    n = len(shape)
+    C = sum(shape)
+
+    def ds(ch):
+        enc = ("rec", "StreamEncoding", {"endianess": "int", "sample_width": ("const", w), "num_interleaved_channels": ("const", ch),
+                                         "is_signed": ("const", True)})
+        return ("obj", "smpl_extract.data_streams:DataStream", {"stream": VIEW, "encoding": enc, "frame_size": ("const", ch * w)})
+
+    @contract(f"lemma:pipeline_block[{tag}]", props=["C12", "C05"], lemma_module="smpl_extract.transcoder",
+              lemma_deps=[T + "make_transcoder", T + "PipelineTranscoder.__next__", T + "decode_frame", T + "encode_frame", T + "pad_channels",
+                          T + "swap_endianess", T + "swap_endianess_multi"],
+              lemma_src=("def block(streams, dest):\n"
+                         "    t = make_transcoder(streams, dest)\n"
+                         "    return t.__next__()\n"))
+    def _pb(c):
+        c.param("streams", ("clist", [ds(ch) for ch in shape]))
+        c.param("dest", ("rec", "StreamEncoding", {"endianess": ("const", 1), "sample_width": ("const", w),
+                                                   "num_interleaved_channels": ("const", C), "is_signed": ("const", True)}))
+        c.bind["system_byte_order"] = ("int", "system_byte_order == 1 or system_byte_order == 2")
+        c.bind["_DEFAULT_BUFFER_SIZE"] = ("int", "_DEFAULT_BUFFER_SIZE >= 1")
+        for k in range(n):
+            c.requires(f"(streams[{k}].encoding.endianess == 1 or streams[{k}].encoding.endianess == 2) and streams[{k}].stream.cur >= 0 "
+                       f"and not streams[{k}].stream.may_fail", f"stream-{k}-well-formed")
+        if n == 1:
+            c.requires("streams[0].encoding.endianess == 2", "single-stream-takes-the-pipeline-only-when-its-byte-order-differs")
+        c.define("nf", [], ("imin(" + ", ".join(f"imax(1, _DEFAULT_BUFFER_SIZE // {shape[k] * w})" for k in range(n)) + ")") if n > 1
+                 else f"imax(1, _DEFAULT_BUFFER_SIZE // {shape[0] * w})")
+        for k in range(n):
+            c.define(f"fr{k}", ["cur"], f"imax(0, imin(nf() * {shape[k] * w}, len(streams[{k}].stream.content) - cur)) // {shape[k] * w}")
+        frs = [f"fr{k}(old(streams[{k}].stream.cur))" for k in range(n)]
+        frs_pre = [f"fr{k}(streams[{k}].stream.cur)" for k in range(n)]
+        mn = frs[0] if n == 1 else "imin(" + ", ".join(frs) + ")"
+        mx = frs[0] if n == 1 else "imax(" + ", ".join(frs) + ")"
+        mn_pre = frs_pre[0] if n == 1 else "imin(" + ", ".join(frs_pre) + ")"
+        c.returns(("bytes", "int"))
+        c.raises("StopIteration", f"{mn_pre} == 0")
+        c.ensures(f"len(result) == {mx} * {C * w}", "as-many-frames-as-the-longest-stream-in-this-block")
+        ch0 = 0
+        for k in range(n):
+            for q in range(shape[k]):
+                cidx = ch0 + q
+                for j in range(w):
+                    src = (f"streams[{k}].stream.content[old(streams[{k}].stream.cur) + (f * {shape[k]} + {q}) * {w} + "
+                           f"ite(streams[{k}].encoding.endianess == 1, {j}, {w - 1 - j})]")
+                    c.ensures(f"forall(0, {mn}, lambda f: result[(f * {C} + {cidx}) * {w} + {j}] == {src})",
+                              f"channel-{cidx}-byte-{j}-comes-from-stream-{k}-channel-{q}")
+            ch0 += shape[k]
+        c.modifies(*[f"streams[{k}].stream.cur" for k in range(n)])
+    return _pb
+
+
+for (_sh, _w) in PIPE_SHAPES:
+    _mk_pipe(_sh, _w)
